@@ -1651,6 +1651,11 @@ class FortranReaderBase:
             )
             logging.getLogger(__name__).error(message)
         line_content = "".join(lines).strip()
+        if name is None and len(lines) > 1 and not start_index:
+            # The construct name may be separated from its colon by a
+            # line continuation, in which case it was not found when
+            # the first physical line was examined.
+            name, line_content = extract_construct_name(line_content)
         if line_content:
             return self.line_item(line_content, startlineno, endlineno, label, name)
         if label is not None:
